@@ -36,6 +36,7 @@ def run(ctx, sess):
     ctx.rule('C03.o', 'repair counts every chunk once: the calls that add the chunk just visited to the rebuilt level above (jls_core_fsr_summaryN / jls_core_fsr_summary1) run only while the flag set at a descent is clear, and the flag is cleared after the first chunk of the lower level')
     ctx.rule('C03.p', 'repair places every block by its own sample id: in the level-0 walk of the FSR rebuild a data chunk is added to the rebuilt level 1 only behind a compare of its header timestamp with the id expected after the previous chunk (blocks that were left out leave no chunk in the chain; a chunk that follows them cannot be placed and ends the signal)')
     ctx.rule('C03.q', 'repair validates a copied chunk against that chunk: a compare with the length of the read buffer (self->buf->length) that involves data copied out of the buffer earlier has no chunk read between the copy and the compare - after another read the buffer describes a different chunk (an index was checked against the length of the summary that follows it, and a file cut inside jls_wr_close could not be opened)')
+    ctx.rule('C03.r', 'pointer repair ends every chain it walked: each local copy of a chunk header that jls_track_repair_pointers keeps as the last good chunk of a chain (the index, its summary, the data chunk) has its item_next cleared and is rewritten - none is left pointing past the cut')
     ctx.rule('C03.n', 'repair copies a chunk into a typed buffer only after checking what it is: every memcpy of the bytes just read into a level / sample buffer is preceded by a compare of the chunk tag and by a compare of the length with the capacity of the destination')
     ctx.rule('C03.d', 'truncation is reachable only from the repair branch of jls_rd_open')
     ra(ctx, P)
@@ -52,6 +53,7 @@ def run(ctx, sess):
     repair_descent_rule(ctx, P, 'C03.o')
     repair_continuity_rule(ctx, P, 'C03.p')
     repair_length_rule(ctx, P, 'C03.q')
+    repair_chains_rule(ctx, P, 'C03.r')
     end_at_end_rule(ctx, P)
     from .c14 import head_table_rule, WRITER_ROOT_PREFIXES
     roots = sorted(f.name for f in P.all_functions() if f.api and f.name.startswith(WRITER_ROOT_PREFIXES))
@@ -448,7 +450,7 @@ def cut_link_rule(ctx, P):
                'followed by jls_core_update_chunk_header(core, &%s) on every path' % x if w is None else
                'the link of %s is cleared in memory but another chunk (or none) is rewritten: the dangling link stays in the file and repair appends a chunk of another kind at that offset' % x,
                w.render() if w else None)
-    ctx.floor('link cuts in pointer repair', n, 3)
+    ctx.floor('link cuts in pointer repair', n, 2)
 
 
 def end_at_end_rule(ctx, P):
@@ -720,3 +722,49 @@ def repair_length_rule(ctx, P, rule):
                    w.render() if w else None)
     ctx.ob(rule, True, fn.name, 'compares with the read buffer length examined', fn.where(),
            '%d copies out of the read buffer, %d compares of copied data with self->buf->length' % (len(copies), n))
+
+
+
+def repair_chains_rule(ctx, P, rule):
+    fn = P.fn('jls_track_repair_pointers')
+    ctx.saw(fn, 1)
+    # local chunk copies that are (transitively) taken from the chunk just read and describe the last good chunk of a chain
+    copies = set()
+    changed = True
+    while changed:
+        changed = False
+        for ev in fn.stores():
+            lhs, rhs, o = ev.store_parts()
+            l0 = strip_casts(lhs)
+            if l0.get('op') != 'ref' or rhs is None or o != '=' or not (l0.get('t') or '').endswith('jls_core_chunk_s'):
+                continue
+            r0 = strip_casts(rhs)
+            src_ok = (r0.get('op') == 'member' and r0.get('field') == 'chunk_cur') or (r0.get('op') == 'ref' and r0.get('name') in copies)
+            if src_ok and l0['name'] not in copies:
+                copies.add(l0['name'])
+                changed = True
+    # intermediates that are only handed on to another copy are not chain ends
+    handed = set()
+    for ev in fn.stores():
+        lhs, rhs, o = ev.store_parts()
+        if rhs is not None and strip_casts(rhs).get('op') == 'ref' and strip_casts(rhs).get('name') in copies and strip_casts(lhs).get('op') == 'ref':
+            handed.add(strip_casts(rhs)['name'])
+    ends = sorted(copies - handed)
+    # every chunk the walk reads successfully is kept in one of the copies (else nothing can cut its link later)
+    reads = list(fn.calls('jls_core_rd_chunk'))
+    if len(reads) < 3:
+        raise AnalysisBroken('jls_track_repair_pointers: %d chunk reads' % len(reads))
+    takes = [ev for ev in fn.stores() if strip_casts(ev.store_parts()[0]).get('op') == 'ref' and strip_casts(ev.store_parts()[0]).get('name') in copies and
+             ev.store_parts()[1] is not None and strip_casts(ev.store_parts()[1]).get('op') == 'member' and strip_casts(ev.store_parts()[1]).get('field') == 'chunk_cur']
+    for r_ in reads:
+        w = find_path(fn, r_, lambda e2, facts: 'target' if e2 in takes else ('stop' if (e2.k == 'call' and e2.callee == 'jls_core_rd_chunk') or e2.k == 'ret' else None), refine=False)
+        ctx.ob(rule, w is not None, fn.name, 'header of the chunk read at line %d is kept' % r_.ln, r_.where(),
+               'copied into a local chunk before the next read' if w is not None else
+               'the chunk read here (the SUMMARY of a pair, or a data chunk) is not remembered: when it turns out to be the last good one of its chain, its item_next cannot be cleared and keeps naming an offset past the cut')
+    for name in ends:
+        clears = [ev for ev in fn.stores() if show(strip_casts(ev.store_parts()[0])) == '%s.hdr.item_next' % name and ev.store_parts()[1] is not None and const_of(strip_casts(ev.store_parts()[1])) == 0]
+        writes = [c for c in fn.calls('jls_core_update_chunk_header') if len(c.args) > 1 and show(strip_casts(c.args[1])) == '&%s' % name]
+        ok = bool(clears) and bool(writes) and all(any(find_path(fn, cl, lambda e2, facts, w_=w_: 'target' if e2 is w_ else None, refine=False) is not None for w_ in writes) for cl in clears)
+        ctx.ob(rule, ok, fn.name, 'end of the chain kept in %s' % name, (clears[0] if clears else fn).where() if hasattr((clears[0] if clears else fn), 'where') else fn.where(),
+               'item_next cleared and the header rewritten' if ok else
+               'the last good chunk kept in %s is never cut off (%d clearing stores, %d rewrites): after a truncation its item_next still names an offset past the end of the file, or a chunk that the repair writes there later' % (name, len(clears), len(writes)))
